@@ -18,10 +18,10 @@ NS_X = 'urn:verif:foreign'
 _GEN = {}
 
 
-def render(tree, n, sigs, templates=False):
+def render(tree, n, sigs, templates=False, alg='sha256'):
     """bytes of node n as a function of the abstract fields only"""
     nd = tree[n]
-    inner = ''.join(render(tree, c, sigs, templates) for c in nd['kids'])
+    inner = ''.join(render(tree, c, sigs, templates, alg) for c in nd['kids'])
     k = nd['kind']
     now = spc.now()
     if k == 'Resp':
@@ -43,7 +43,7 @@ def render(tree, n, sigs, templates=False):
         return x
     if k == 'Sig':
         if templates:
-            base = sb.signature_template('a' if nd['orig'] == 'A' else 'r', 'sha256')
+            base = sb.signature_template('a' if nd['orig'] == 'A' else 'r', alg)
         else:
             base = sigs[nd['orig']]
         return base[:-len('</ds:Signature>')] + inner + '</ds:Signature>'
@@ -58,14 +58,14 @@ def render(tree, n, sigs, templates=False):
     raise fw.Machinery('unknown kind %r' % k)
 
 
-def genuine(level):
+def genuine(level, alg='sha256'):
     """the genuine document of that level, really signed; returns the verbatim signature elements"""
-    if level in _GEN:
-        return _GEN[level]
+    if (level, alg) in _GEN:
+        return _GEN[(level, alg)]
     tree = {1: {'kind': 'Resp', 'id': 'r', 'content': 'genuine', 'kids': [2] if level == 'assertion' else [4, 2]},
             2: {'kind': 'Asrt', 'id': 'a', 'content': 'genuine', 'kids': [] if level == 'response' else [3]},
             3: {'kind': 'Sig', 'orig': 'A', 'kids': []}, 4: {'kind': 'Sig', 'orig': 'R', 'kids': []}}
-    doc = render(tree, 1, None, templates=True)
+    doc = render(tree, 1, None, templates=True, alg=alg)
     if level != 'response':
         doc = sb.sign(doc, sb.NS_SAML, 'Assertion', 'a', 'kIdp1')
     if level != 'assertion':
@@ -78,8 +78,18 @@ def genuine(level):
         sigs['R'] = found[0]
     else:
         sigs['R'], sigs['A'] = found[0], found[1]
-    _GEN[level] = (doc, sigs)
-    return _GEN[level]
+    _GEN[(level, alg)] = (doc, sigs)
+    return _GEN[(level, alg)]
+
+
+def _wrap_top_assertion(doc):
+    """put the (single) Assertion child of the Response into an EncryptedAssertion element"""
+    import xmlsec_model as xm
+    raw = doc.encode('utf-8')
+    root = xm.parse(raw)
+    tops = [k for k in root.elems() if k.tag == 'Assertion']
+    a = tops[0]
+    return (raw[:a.start] + b'<saml:EncryptedAssertion>' + raw[a.start:a.end] + b'</saml:EncryptedAssertion>' + raw[a.end:]).decode('utf-8')
 
 
 def tool_verdict(doc, kind, ident):
@@ -99,7 +109,8 @@ def tool_verdict(doc, kind, ident):
 
 def replay(case):
     tree = dict((nd['n'], nd) for nd in case['tree'])
-    gdoc, sigs = genuine(case['level'])
+    alg = case.get('alg', 'sha256')
+    gdoc, sigs = genuine(case['level'], alg)
     doc = render(tree, case['root'], sigs)
     if case['edits'] == 0 and doc != gdoc:
         raise fw.Machinery('rendering of the unedited tree differs from the genuine document')
@@ -109,6 +120,12 @@ def replay(case):
         got = tool_verdict(doc, t['k'], t['i'])
         if got != t['ok']:
             out['tool_mismatch'].append({'k': t['k'], 'i': t['i'], 'tlc': t['ok'], 'standin': got})
+    plain_doc = doc
+    if case.get('enc'):
+        # the attacker (or the IdP) encrypts the single top-level assertion, whatever it has become, for the SP
+        doc = sb.encrypt_element(_wrap_top_assertion(doc),
+                                 sb.xp('Response', 'EncryptedAssertion', 'Assertion'), 'kSpEnc1')
+        out['doc'] = doc
     for v in case['verdicts']:
         c = v['cfg']
         sp = spc.sp_for(want_response_signed=c['wantResp'], want_assertions_signed=c['wantAssert'],
@@ -162,6 +179,21 @@ def main():
     if pinned.violated != 'Contract':
         raise fw.Machinery('vacuity control failed: the pinned design should violate the contract')
 
+    # every RSA-SHA algorithm in turn; assertion-level documents with a single top-level assertion also in encrypted form
+    algs = sorted(sb.SIGALG)
+    twins = []
+    for k, c in enumerate(cases):
+        c['alg'] = algs[(k + chk.seed) % len(algs)]
+        if c['level'] == 'assertion':
+            tree = dict((nd['n'], nd) for nd in c['tree'])
+            rootnd = tree[c['root']]
+            if rootnd['kind'] == 'Resp' and sum(1 for x in rootnd['kids'] if tree[x]['kind'] == 'Asrt') == 1 \
+                    and (c['edits'] <= 1 or any(v['pinned'] != v['model'] for v in c['verdicts']) or chk.rng.random() < 0.15):
+                t = dict(c)
+                t['enc'] = True
+                t['tool'] = []
+                twins.append(t)
+    cases = cases + twins
     nacc = 0
     tool_checked = 0
     for case, out, err in fw.pmap(replay, cases, init=spc.init_worker, chunk=8):
@@ -172,7 +204,8 @@ def main():
             raise fw.Machinery('the stand-in disagrees with XmlSecTool.tla on %s: %s\n%s' % (sh, out['tool_mismatch'], out['doc']))
         tool_checked += len(case['tool'])
         for r in out['cfg']:
-            scn = {'level': case['level'], 'edits': case['edits'], 'shape': sh, 'cfg': r['cfg']}
+            scn = {'level': case['level'], 'edits': case['edits'], 'shape': sh, 'cfg': r['cfg'], 'enc': bool(case.get('enc')),
+                   'alg': case.get('alg')}
             chk.count(scn, nontrivial=r['mustReject'] or r['mustAccept'])
             accepted = r['verdict'] == 'accept'
             nacc += accepted
@@ -185,7 +218,7 @@ def main():
                               % (sh, json.dumps(r['cfg'], sort_keys=True)), detail)
             elif r['mustAccept'] and not accepted:
                 chk.violation(scn, 'genuine signed response rejected (%s %s) under %s' % (r.get('exc'), r.get('msg'), json.dumps(r['cfg'], sort_keys=True)), detail)
-            elif accepted != r['model']:
+            elif accepted != r['model'] and not case.get('enc'):
                 chk.note('drift: SP says %s, pipeline model says %s for %s under %s'
                          % (r['verdict'], 'accept' if r['model'] else 'reject', sh, json.dumps(r['cfg'], sort_keys=True)))
         chk.sample({'level': case['level'], 'edits': case['edits'], 'document': sh,
